@@ -10,8 +10,11 @@ package main
 import (
 	"crypto/sha256"
 	"fmt"
+	"os"
+	"sort"
 	"strings"
 	"sync"
+	"time"
 
 	"verifharness/hx"
 )
@@ -26,7 +29,8 @@ type failure struct {
 type world interface {
 	// exec runs one request (tokens without the container prefix) on the real code.
 	exec(f []string) string
-	failures() []failure
+	// drain returns (and forgets) the oracle failures recorded since the last call.
+	drain() []failure
 	// nontrivial reports whether the executed case is non-trivial by the container's rule.
 	nontrivial() bool
 	// discard reports that the case must not be compared (real-clock case disturbed by a stall).
@@ -34,16 +38,23 @@ type world interface {
 }
 
 type base struct {
-	fails []failure
+	fails  []failure
+	failed bool
 }
 
 func (b *base) fail(oracle, detail string, sig map[string]string) {
-	if len(b.fails) < 1 { // the first failure of a case is the root cause; later ones are echoes
+	if !b.failed { // the first failure of a case is the root cause; later ones are echoes
+		b.failed = true
 		b.fails = append(b.fails, failure{oracle, detail, sig})
 	}
 }
-func (b *base) failures() []failure { return b.fails }
-func (b *base) discard() bool       { return false }
+func (b *base) drain() []failure {
+	f := b.fails
+	b.fails = nil
+
+	return f
+}
+func (b *base) discard() bool { return false }
 
 type container struct {
 	name string
@@ -71,63 +82,171 @@ type caseResult struct {
 	fails        []failure
 	nontrivial   bool
 	discarded    bool
+	hung         bool
 }
 
-// execCase interprets the op lines of one case.
-func execCase(ops []string) caseResult {
-	res := caseResult{ops: ops}
-	if len(ops) == 0 {
-		return res
-	}
-	first := strings.Fields(ops[0])
-	c := find(first[0])
-	if c == nil {
-		for range ops {
-			res.answers = append(res.answers, "bad-op")
-		}
-
-		return res
-	}
-	var w world
-	for _, op := range ops {
-		f := strings.Fields(op)
-		if len(f) < 2 || f[0] != c.name {
-			res.answers = append(res.answers, "bad-op")
-
-			continue
-		}
-		if f[1] == "new" {
-			if w != nil {
-				res.fails = append(res.fails, w.failures()...)
-			}
-			if p := hx.Safely(func() { w = c.mk(f[2:]) }); p != "" {
-				w = nil
-				res.answers = append(res.answers, "panic")
-			} else {
-				res.answers = append(res.answers, "ok")
-			}
-
-			continue
-		}
-		if w == nil {
-			res.answers = append(res.answers, "bad-op")
-
-			continue
-		}
-		var ans string
-		if p := hx.Safely(func() { ans = w.exec(f[1:]) }); p != "" {
-			ans = "panic"
-		}
-		res.answers = append(res.answers, ans)
-	}
-	if w != nil {
-		res.fails = append(res.fails, w.failures()...)
-		res.nontrivial = w.nontrivial()
-		res.discarded = w.discard()
-	}
-
-	return res
+// stepper interprets the op lines of one case one at a time.
+type stepper struct {
+	c *container
+	w world
 }
+
+// step executes one op line on the real code and returns the canonical answer plus the oracle failures the
+// request produced (drained from the world, so that they can be reported before the next request runs).
+func (st *stepper) step(op string) (string, []failure) {
+	f := strings.Fields(op)
+	if st.c == nil {
+		if len(f) > 0 {
+			st.c = find(f[0])
+		}
+		if st.c == nil {
+			return "bad-op", nil
+		}
+	}
+	if len(f) < 2 || f[0] != st.c.name {
+		return "bad-op", nil
+	}
+	if f[1] == "new" {
+		if p := hx.Safely(func() { st.w = st.c.mk(f[2:]) }); p != "" {
+			st.w = nil
+
+			return "panic", nil
+		}
+
+		return "ok", nil
+	}
+	if st.w == nil {
+		return "bad-op", nil
+	}
+	var ans string
+	if p := hx.Safely(func() { ans = st.w.exec(f[1:]) }); p != "" {
+		ans = "panic"
+	}
+
+	return ans, st.w.drain()
+}
+
+// caseTimeout bounds one case (normally a few milliseconds).  A case that exceeds it is a hang of the code
+// under test: it becomes an oracle failure whose replay is the prefix up to and including the hanging request.
+const caseTimeout = 45 * time.Second
+
+// execCase interprets the op lines of one case (buffered: nothing is written to the run).  With stopAtFail the
+// case ends at the first request on which a property oracle fails (the prefix is the failing input).
+func execCase(ops []string, stopAtFail bool) caseResult {
+	res := caseResult{}
+	var mu sync.Mutex
+	cur := ""
+	done := make(chan struct{})
+	abandoned := false
+	go func() {
+		defer close(done)
+		st := &stepper{}
+		for _, op := range ops {
+			mu.Lock()
+			if abandoned {
+				mu.Unlock()
+
+				return
+			}
+			cur = op
+			mu.Unlock()
+			ans, fl := st.step(op)
+			mu.Lock()
+			if abandoned {
+				mu.Unlock()
+
+				return
+			}
+			res.ops = append(res.ops, op)
+			res.answers = append(res.answers, ans)
+			res.fails = append(res.fails, fl...)
+			mu.Unlock()
+			if stopAtFail && len(fl) > 0 {
+				break
+			}
+		}
+		if st.w != nil {
+			mu.Lock()
+			res.nontrivial = st.w.nontrivial()
+			res.discarded = st.w.discard()
+			mu.Unlock()
+		}
+	}()
+	select {
+	case <-done:
+		return res
+	case <-time.After(caseTimeout):
+	}
+	mu.Lock()
+	defer mu.Unlock()
+	abandoned = true
+	out := caseResult{ops: append(append([]string{}, res.ops...), cur), answers: append(append([]string{}, res.answers...), "hang"),
+		fails: append([]failure{}, res.fails...), hung: true}
+	f := strings.Fields(cur)
+	api := "?"
+	if len(f) >= 2 {
+		api = f[0] + "." + f[1]
+	}
+	out.fails = append(out.fails, failure{"termination", fmt.Sprintf("request %q did not return within %v", cur, caseTimeout),
+		map[string]string{"container": f[0], "api": api, "oracle": "hang"}})
+
+	return out
+}
+
+func sigKey(sig map[string]string) string {
+	keys := make([]string, 0, len(sig))
+	for k := range sig {
+		keys = append(keys, k)
+	}
+	sort.Strings(keys)
+	out := ""
+	for _, k := range keys {
+		out += k + "=" + sig[k] + ";"
+	}
+
+	return out
+}
+
+// shrink removes requests greedily while a failure with the same signature remains.
+func shrink(ops []string, key string) []string {
+	fails := func(cand []string) bool {
+		res := execCase(cand, true)
+		if res.hung {
+			hangs++
+		}
+		for _, fl := range res.fails {
+			if sigKey(fl.sig) == key {
+				return true
+			}
+		}
+
+		return false
+	}
+	cur := append([]string{}, ops...)
+	for pass := 0; pass < 3 && hangs < 2; pass++ {
+		changed := false
+		for i := len(cur) - 1; i >= 1; i-- { // never the constructor line
+			cand := append(append([]string{}, cur[:i]...), cur[i+1:]...)
+			if fails(cand) {
+				cur = cand
+				changed = true
+			}
+			if hangs >= 2 {
+				break
+			}
+		}
+		if !changed {
+			break
+		}
+	}
+
+	return cur
+}
+
+var (
+	seenSig = map[string]bool{}
+	hangs   int
+)
 
 func emit(r *hx.Run, sub uint64, res caseResult) {
 	if len(res.ops) == 0 {
@@ -148,7 +267,7 @@ func emit(r *hx.Run, sub uint64, res caseResult) {
 			r.Count("op:" + f[0] + "." + f[1])
 		}
 		a := strings.Fields(res.answers[i])
-		if len(a) > 0 && (a[0] == "panic" || strings.HasPrefix(a[0], "err") || a[0] == "bad-op" || a[0] == "nan" || a[0] == "inf") {
+		if len(a) > 0 && (a[0] == "panic" || strings.HasPrefix(a[0], "err") || a[0] == "bad-op" || a[0] == "nan" || a[0] == "inf" || a[0] == "hang") {
 			r.Count("ans:" + name + "." + a[0])
 		}
 		if strings.Contains(res.answers[i], "DROP(") {
@@ -167,6 +286,39 @@ func emit(r *hx.Run, sub uint64, res caseResult) {
 	}
 }
 
+// runCase executes one generated case.  The case ends at the first oracle failure (so the recorded input is the
+// failing prefix); the first failure of every signature is minimised and the minimised case is emitted first, so
+// that it becomes the replay of that signature.
+func runCase(r *hx.Run, sub uint64, ops []string, replay bool) {
+	res := execCase(ops, !replay)
+	if res.hung {
+		hangs++
+	}
+	if !replay && !res.hung {
+		for _, fl := range res.fails {
+			key := sigKey(fl.sig)
+			if seenSig[key] || len(seenSig) >= 8 {
+				continue
+			}
+			seenSig[key] = true
+			if small := shrink(res.ops, key); len(small) < len(res.ops) {
+				sr := execCase(small, true)
+				if len(sr.fails) > 0 && !sr.hung {
+					r.Count("shrunk:" + strings.Fields(res.ops[0])[0])
+					emit(r, 0, sr)
+				}
+			}
+		}
+	}
+	emit(r, sub, res)
+	if hangs >= 2 {
+		// goroutines stuck in the code under test cannot be stopped; report what was found and leave
+		r.Count("aborted-after-hangs")
+		r.Finish()
+		os.Exit(0)
+	}
+}
+
 func main() {
 	r := hx.Start()
 	r.MaxSamples = 6
@@ -177,14 +329,14 @@ func main() {
 	r.Rule = "per container random histories of ~40 ops over universes of 4-6 keys/clients/topics and every option setting; " +
 		"distinct by sha256 of the op lines; non-trivial = " + strings.Join(rules, "; ")
 	if lines := r.ReplayLines(); lines != nil {
-		emit(r, 0, execCase(lines))
+		runCase(r, 0, lines, true)
 		r.Finish()
 
 		return
 	}
 	for _, c := range containers {
 		for _, ops := range c.corpus {
-			emit(r, 0, execCase(ops))
+			runCase(r, 0, ops, false)
 		}
 	}
 	n := 2000 * r.Scale
@@ -192,7 +344,7 @@ func main() {
 		c := &containers[ci]
 		for i := 0; i < n; i++ {
 			rng, sub := r.Rng.Fork()
-			emit(r, sub, execCase(c.gen(rng, 40)))
+			runCase(r, sub, c.gen(rng, 40), false)
 		}
 	}
 	// TimeHeap against the real clock: a few short histories with real sleeps, run concurrently
@@ -219,7 +371,7 @@ func main() {
 			defer wg.Done()
 			sem <- struct{}{}
 			defer func() { <-sem }()
-			j.res = execCase(j.ops)
+			j.res = execCase(j.ops, false)
 		}(j)
 	}
 	wg.Wait()
